@@ -36,7 +36,9 @@ META = dict(
          "arithmetic operations, plus PRNG-derived operands aimed at the same bounds (shared factors, equal/negated "
          "operands, sums and products just across a bound), each reached directly (string constructor) or through "
          "arithmetic (states WORD_AND_MPQ, WORD_PLUS_MPQ_INITIALIZED); a case is non-trivial unless an operand is 0 or 1; "
-         "distinct = distinct (op, modes, operands)",
+         "distinct = distinct (op, modes, operands); plus operation SEQUENCES over a register file of 2-4 objects (in-place, aliasing, "
+         "copies/moves, cache-priming mixed reads; every register compared with the model and exact arithmetic after every step); every result "
+         "is also read through a mixed-representation operation and isWellFormed()",
 )
 
 HERE = os.path.dirname(os.path.abspath(__file__))
